@@ -67,6 +67,7 @@ type Rec struct {
 	start     time.Time
 	lastFlush time.Time
 	out       string
+	fuzzing   bool
 	rule      string
 	cur       string // sub-check whose Check function is running (labels the samples)
 }
@@ -74,6 +75,10 @@ type Rec struct {
 // maxDistinct bounds the per-process set of non-trivial case hashes (memory
 // and statistics-file size); cases beyond it are not counted as distinct.
 const maxDistinct = 3000000
+
+// fuzz workers are many, long-lived and flush periodically: a much smaller cap
+// keeps their memory and statistics files small (they count conservatively).
+const maxDistinctFuzz = 200000
 
 var global *Rec
 
@@ -137,6 +142,7 @@ func newRec(id string) *Rec {
 		start:     time.Now(),
 		lastFlush: time.Now(),
 		out:       os.Getenv("VERIF_OUT"),
+		fuzzing:   os.Getenv("VERIF_FUZZING") != "",
 	}
 	path := filepath.Join(verifDir(), "known_findings.json")
 	if b, err := os.ReadFile(path); err == nil {
@@ -171,9 +177,9 @@ func (r *Rec) Eval() {
 	r.evals++
 	n := r.evals
 	r.mu.Unlock()
-	if n%4096 == 0 && r.out != "" && os.Getenv("VERIF_FUZZING") != "" {
+	if n%4096 == 0 && r.out != "" && r.fuzzing {
 		// fuzz workers may be killed without running deferred code
-		if time.Since(r.lastFlush) > 3*time.Second {
+		if time.Since(r.lastFlush) > 10*time.Second {
 			r.Flush()
 		}
 	}
@@ -213,7 +219,11 @@ func (r *Rec) NonTrivial(sample any, key ...[]byte) {
 	v := h.Sum64()
 	r.mu.Lock()
 	_, seen := r.distinct[v]
-	if !seen && len(r.distinct) >= maxDistinct {
+	limit := maxDistinct
+	if r.fuzzing {
+		limit = maxDistinctFuzz
+	}
+	if !seen && len(r.distinct) >= limit {
 		// conservative: beyond the cap new cases are no longer counted
 		r.classes["distinct-set-capped"]++
 		seen = true
